@@ -2,7 +2,9 @@
 
 Patterns: all pattern strings of size <= 2 over 20 atoms and size <= 3 over an 8-atom
 subset (size <= 4 in thorough), closed under concatenation, alternation, grouping and
-the quantifiers * + ? {2} {1,2} {2,}; plus a list of invalid patterns.
+the quantifiers * + ? {2} {1,2} {2,}; plus every character class over sequences of <= 3 class items (escaped brackets,
+backslash, dash, dot, ranges, category escapes; plain and negated), plus a list of
+invalid patterns.
 Subjects: all strings of length <= 2 over a 14-character alphabet plus all strings of
 length 3 over a 6-character subset (length <= 3 over all 14 in thorough).
 Oracle: R5 (mc/ref/iregexp.py): match <=> whole subject in L(p); search <=> some
@@ -96,11 +98,38 @@ def subjects(tier):
     return out
 
 
+CLASS_ITEMS = ["a", "b", ".", "\\]", "\\[", "\\\\", "\\-", "\\.", "\\n", "|", "^", "\\p{L}", "a-c", "\\^", "(", "*"]
+CLASS_SUBJECTS = ["", "a", "b", "c", "d", ".", "]", "[", "\\", "-", "\n", "|", "^", "(", "*", "1", "\U0001F600", "\r",
+                  "ab", "a]", "].", ".a", "\\]", "a.", "]]", "x"]
+
+
+def class_patterns():
+    """character classes over every sequence of <=3 class items, plain and negated, alone and
+    followed / preceded by other atoms (escapes inside a class must not end it early)"""
+    out = []
+    import itertools as it
+    for k in (1, 2, 3):
+        for combo in it.product(CLASS_ITEMS, repeat=k):
+            body = "".join(combo)
+            for neg in ("", "^"):
+                if neg == "" and combo[0] == "^":
+                    continue
+                cls = "[" + neg + body + "]"
+                out.append(cls)
+                if k <= 2:
+                    out.append(cls + ".")
+                    out.append("a" + cls + "*")
+    seen = set()
+    return [p for p in out if not (p in seen or seen.add(p))]
+
+
 def shards(tier):
     pats = patterns(tier)
     step = 40
     out = [{"space": "valid", "lo": lo, "hi": min(lo + step, len(pats)), "tier": tier}
            for lo in range(0, len(pats), step)]
+    cp = class_patterns()
+    out += [{"space": "classes", "lo": lo, "hi": min(lo + 400, len(cp)), "tier": tier} for lo in range(0, len(cp), 400)]
     out.append({"space": "invalid", "tier": tier})
     out.append({"space": "kinds", "tier": tier})
     return out
@@ -157,6 +186,16 @@ def run_shard(desc):
             doc = [{"s": s, "p": p} for s in subj[:220]]
             run_query(sh, "$[?match(@.s, @.p)]", doc)
             run_query(sh, "$[?search(@.s, @.p)]", doc)
+    elif desc["space"] == "classes":
+        for p in class_patterns()[desc["lo"]:desc["hi"]]:
+            r5 = iregexp.compile_(p) is not None
+            r1 = abnf.iregexp().matches("i-regexp", p)
+            if not (r5 and r1):
+                continue  # only classes both recognisers accept; invalid patterns have their own space
+            sh.bump("valid_class_patterns")
+            for fn in ("match", "search"):
+                run_query(sh, f"$[?{fn}(@, {quote(p)})]", CLASS_SUBJECTS)
+        sh.sample({"pattern": class_patterns()[desc["lo"]], "subjects": len(CLASS_SUBJECTS)}, limit=1)
     elif desc["space"] == "invalid":
         for p in INVALID:
             assert iregexp.compile_(p) is None, p
